@@ -315,6 +315,7 @@ func (fc *FuncCtx) execFor(st *State, x *ast.ForStmt, label string) *State {
 	locs = append(locs, fc.clauseLocs(lc.Modifies)...)
 	h := st.clone()
 	fc.applyHavoc(h, locs)
+	fc.ownLoopHead(h, locs)
 	fc.assumeInvariants(h, lc, pre, at, x)
 
 	cond := tTrue()
@@ -342,6 +343,7 @@ func (fc *FuncCtx) execFor(st *State, x *ast.ForStmt, label string) *State {
 	fc.breakTargets = fc.breakTargets[:len(fc.breakTargets)-1]
 	end = fc.merge(append([]*State{end}, tgt.continues...))
 	if !end.dead {
+		fc.ownLoopEnd(end, x.Body, x)
 		fc.checkSteps(end, bodyStart, lc, ord, pre, at, x)
 		if x.Post != nil {
 			end = fc.exec(end, x.Post)
